@@ -414,6 +414,10 @@ class Pipe<StageClass::kGenerator, CurStage, PipeNext> {
       }
       CompletionEventImpl* completion;
     };
+    // Force queuing: a generator task that schedule() chose to run inline on the pipeline() caller
+    // (overloaded pool) runs outside the task set's exception capture; an exception thrown by the
+    // generator or by a stage inlined beneath it would then escape execute() and unwind pipeline()
+    // past the pipes while their tasks are still in flight.
     for (ssize_t i = 0; i < numThreads; ++i) {
       tasks_.schedule([this, cGuard = CompletionGuard(completion_.get())]() {
         while (!tasks_.hasException()) {
@@ -423,7 +427,7 @@ class Pipe<StageClass::kGenerator, CurStage, PipeNext> {
           }
           pipeNext_.execute(std::move(op.value()));
         }
-      });
+      }, ForceQueuingTag());
     }
   }
 
@@ -449,10 +453,12 @@ class Pipe<StageClass::kSingleStage, CurStage, SinkPipe> {
   void execute() {
     size_t numThreads = std::min(tasks_.numPoolThreads(), StageLimits<CurStage>::limit(stage_));
     for (size_t i = 0; i < numThreads; ++i) {
-      tasks_.schedule([this]() {
-        while (!tasks_.hasException() && stage_()) {
-        }
-      });
+      tasks_.schedule(
+          [this]() {
+            while (!tasks_.hasException() && stage_()) {
+            }
+          },
+          ForceQueuingTag());
     }
   }
 
